@@ -9,7 +9,20 @@ def _run(seed):
     import random
     rng = random.Random(seed)
     ev = [e for e in EVENTS if rng.random() < 0.6] or ["PriceLimit"]
-    sim.run_seed(seed, events=tuple(ev))
+    r, cfg = sim.run_seed(seed, events=tuple(ev))
+    # run-level clause of C14: an enabled fundamental price shock hits its target once at EACH step of its window (counted from the start of its session) that the run reaches
+    from pams.events import FundamentalPriceShock
+    from .monitors import ContractViolation
+    total = sum(s_.iteration_steps for s_ in r.simulator.sessions)
+    for e in r.simulator.events:
+        if isinstance(e, FundamentalPriceShock) and e.is_enabled:
+            c = cfg[e.name]
+            start = e.session.session_start_time + c["triggerTime"]
+            want = [t for t in range(start, start + c.get("shockTimeLength", 1)) if t < total]
+            got = sorted(getattr(e, "_verif_applied", []))
+            if got != want:
+                raise ContractViolation("FundamentalPriceShock.hook_registration", "C14 the shock is applied once at each step of its trigger window, counted from the start of its session, and at no other time",
+                                        dict(applied_at=got, window=want, session_start=e.session.session_start_time, steps_of_run=total))
 
 
 def search(seed, tier, obligation, hints):
